@@ -81,6 +81,14 @@ static void hookFcn(const char *name, const void *)
   tl_rng ^= tl_rng << 17;
   if ((int)(tl_rng % 1000) < pm) {
     int kind = (int)((tl_rng >> 12) % 4);
+    // now and then a thread is held for milliseconds instead of microseconds (a pre-emption): inside the two windows of
+    // the pipe protocol (a reader that has claimed a slot, a writer about to publish) 1 delay in 64 is such a hold,
+    // elsewhere 1 in 1024 - long enough for the other side to go once round the 256-slot ring
+    bool pipeWindow = name[0] == 'p' && name[1] == 'i';
+    if (((tl_rng >> 40) & (pipeWindow ? 63 : 1023)) == 0) {
+      std::this_thread::sleep_for(std::chrono::milliseconds(2 + (tl_rng >> 50) % 12));
+      return;
+    }
     if (kind == 0)
       std::this_thread::yield();
     else if (kind == 1)
